@@ -256,7 +256,7 @@ pub fn run(ctx: &mut Ctx) {
     assert_eq!(strip("/abs/y/z.js", &["/abs", "/abs/y"]), "y/z.js");
     assert_eq!(strip("/absolute/z.js", &["/abs"]), "/absolute/z.js");
 
-    let total = ctx.size(150_000, 5_000_000);
+    let total = ctx.size(1_500_000, 8_000_000);
     for n in ctx.cases("maps", total) {
         let mut rng = ctx.begin("maps", n);
         ctx.eval();
